@@ -642,3 +642,46 @@ func flagTrueFrom(from *ssa.BasicBlock, g *ssa.If) bool {
 	}
 	return reached
 }
+
+// keyEnteredForEveryElement: fn holds a store into the Props of an object type whose key is the key of a range over the map
+// field <field>, executed on every iteration of that range loop, and no loop around it is left from its body. Returns the
+// position of the store and a reason when that does not hold.
+func keyEnteredForEveryElement(fn *ssa.Function, field string) (token.Pos, string) {
+	pos, why := fn.Pos(), "no store into the scope object under the keys of "+field
+	eachInstr(fn, func(b *ssa.BasicBlock, _ int, in ssa.Instruction) {
+		mu, ok := in.(*ssa.MapUpdate)
+		if !ok {
+			return
+		}
+		if f, _ := fieldLoad(mu.Map); f != "ObjectType.Props" {
+			return
+		}
+		if f, _, idx := rangeKeyOf(mu.Key); f != field || idx != 1 {
+			return
+		}
+		pos, why = mu.Pos(), ""
+		h, body := innermostLoop(b)
+		if h == nil {
+			why = "the store is not inside the loop over " + field
+			return
+		}
+		if w := everyIteration(h, body, b); w != "" {
+			why = w
+			return
+		}
+		for _, h2 := range loopHeaders(fn) {
+			body2 := naturalLoop(h2)
+			if h2 == h || !body2[h] {
+				continue
+			}
+			for x := range body2 {
+				for _, s := range x.Succs {
+					if x != h2 && !body2[s] {
+						why = "an enclosing loop is left from its body"
+					}
+				}
+			}
+		}
+	})
+	return pos, why
+}
